@@ -251,11 +251,16 @@ func (s *System) removeFuture(agentRef *AgentRef) {
 }
 
 func (s *System) removeFuturesByAgentPath(agentPath vivid.ActorPath, err error) {
+	// 在锁内复制一份快照：Close 会通过 removeFuture 修改同一个 map，其他 goroutine（应答、超时）也可能同时修改，
+	// 在锁外直接遍历该 map 会触发 "concurrent map iteration and map write" 致命错误
 	s.futureLock.Lock()
-	refs := s.futureAgents[agentPath]
+	refs := make([]vivid.ActorPath, 0, len(s.futureAgents[agentPath]))
+	for ref := range s.futureAgents[agentPath] {
+		refs = append(refs, ref)
+	}
 	s.futureLock.Unlock()
 
-	for ref := range refs {
+	for _, ref := range refs {
 		if ctx, ok := s.actorContexts.Load(ref); ok {
 			if f, ok := ctx.(*future.Future[vivid.Message]); ok {
 				f.Close(err)
